@@ -40,11 +40,14 @@ CONSTANTS Sizes,      \* <<n1,..,nk>>  sizes of the parameter dimensions, 1 <= k
           KindSel,    \* {"cells"}: every slot independently;  else a set of class names, one class per location
           Modes,      \* subset of {"find","parse"}
           ReqKinds,   \* subset of {"combos","cases","mixed","partial","foreigncombo","foreigncase"}
+          LabelBy,    \* "given": harvest_cases labels a tuple case with the fn_args it is GIVEN (those returned by
+                      \* find_missing_cases, i.e. the dataset's order) | "signature": with the runner's own argument order
           Rule        \* "all" | "anyvar" | "anypos" | "firstvar" | "swap" | "keyfalse" | "ignoreforeign" | "prepend" | "twice"
 
-VARIABLES mode, method, cell0, cell, pc, cur, missing, missing2, req, k, newcases
+VARIABLES mode, method, cell0, cell, pc, cur, missing, missing2, req, k, newcases,
+          grown       \* the harvest created a coordinate label the dataset did not have
 
-vars == <<mode, method, cell0, cell, pc, cur, missing, missing2, req, k, newcases>>
+vars == <<mode, method, cell0, cell, pc, cur, missing, missing2, req, k, newcases, grown>>
 
 ND == Len(Sizes)
 Dims == 1..ND
@@ -199,6 +202,7 @@ Init ==
     /\ cur = First
     /\ missing = <<>> /\ missing2 = <<>>
     /\ k = 1 /\ newcases = <<>>
+    /\ grown = FALSE
     /\ IF mode = "find"
           THEN pc = "scan1" /\ req = [kind |-> "none", cases |-> <<>>, combos |-> <<>>, list |-> <<>>]
           ELSE pc = "parse" /\ \E q \in UsableReqKinds : req = Request(q) @@ [list |-> Expand(Request(q))]
@@ -208,14 +212,26 @@ Visit1 ==
     /\ missing' = IF CodeMissing(cell, method, AsSetting(cur)) THEN Report(missing, cur) ELSE missing
     /\ IF Succ(cur) = <<>> THEN pc' = "harvest" /\ cur' = First
                            ELSE pc' = pc /\ cur' = Succ(cur)
-    /\ UNCHANGED <<mode, method, cell0, cell, missing2, req, k, newcases>>
+    /\ UNCHANGED <<mode, method, cell0, cell, missing2, req, k, newcases, grown>>
 
 (* harvest_cases(missing): the function is run at exactly the reported locations and its
    results (data in every slot) are merged into the dataset *)
+(* The reported cases are TUPLES of coordinate values in the dataset's dimension order; the docs' loop is
+       fn_args, cases = find_missing_cases(ds);  h.harvest_cases(cases, fn_args=fn_args)
+   and the runner's function may list its arguments in any order sig (a permutation of the dimensions:
+   sig[i] = the dimension named by the i-th argument).  Labelling the tuple with the given fn_args puts value i
+   on dimension i; labelling it with the signature puts it on dimension sig[i].  Dict cases carry their labels. *)
+SigOrders == { p \in [Dims -> Dims] : \A d, e \in Dims : d # e => p[d] # p[e] }
+Labelled(case, sig) ==
+    IF LabelBy = "given" THEN case
+    ELSE [d \in Dims |-> LET i == CHOOSE j \in Dims : sig[j] = d IN case[i]]
+
 HarvestReported ==
     /\ pc = "harvest"
-    /\ cell' = [l \in Locs |-> IF \E i \in 1..Len(missing) : missing[i] = l
-                                  THEN [s \in 1..NS |-> "data"] ELSE cell[l]]
+    /\ \E sig \in SigOrders :
+         LET targets == { Labelled(missing[i], sig) : i \in 1..Len(missing) }
+         IN  /\ cell' = [l \in Locs |-> IF l \in targets THEN [s \in 1..NS |-> "data"] ELSE cell[l]]
+             /\ grown' = \E t \in targets : t \notin Locs
     /\ pc' = "scan2"
     /\ UNCHANGED <<mode, method, cell0, cur, missing, missing2, req, k, newcases>>
 
@@ -224,14 +240,14 @@ Visit2 ==
     /\ missing2' = IF CodeMissing(cell, method, AsSetting(cur)) THEN Report(missing2, cur) ELSE missing2
     /\ IF Succ(cur) = <<>> THEN pc' = "done" /\ cur' = First
                            ELSE pc' = pc /\ cur' = Succ(cur)
-    /\ UNCHANGED <<mode, method, cell0, cell, missing, req, k, newcases>>
+    /\ UNCHANGED <<mode, method, cell0, cell, missing, req, k, newcases, grown>>
 
 VisitReq ==
     /\ pc = "parse"
     /\ LET e == req.list          \* the double loop, unrolled once when the request is made
        IN  /\ newcases' = IF CodeMissing(cell, method, e[k]) THEN Report(newcases, e[k]) ELSE newcases
            /\ IF k = Len(e) THEN pc' = "done" /\ k' = k ELSE pc' = pc /\ k' = k + 1
-    /\ UNCHANGED <<mode, method, cell0, cell, cur, missing, missing2, req>>
+    /\ UNCHANGED <<mode, method, cell0, cell, cur, missing, missing2, req, grown>>
 
 Next == Visit1 \/ HarvestReported \/ Visit2 \/ VisitReq \/ (pc = "done" /\ UNCHANGED vars)
 
@@ -259,6 +275,8 @@ ExactlyTheMissing == (mode = "find" /\ pc # "scan1") => missing = OracleMissing(
 
 (* harvesting exactly the reported cases leaves nothing missing *)
 SecondScanEmpty == (mode = "find" /\ pc = "done") => missing2 = <<>>
+(* ... and no coordinate label the dataset did not already have *)
+NoNewLabels == ~grown
 HarvestTouchesOnlyReported ==
     \A l \in Locs : (cell[l] # cell0[l]) => \E i \in 1..Len(missing) : missing[i] = l
 
